@@ -401,9 +401,12 @@ class FileInfo(os.PathLike):
     def to_json_dict(self):
         return {
             "path": self.path,
+            # isoformat() always writes four-digit years; strftime("%Y") does
+            # not pad years before 1000 (e.g. datetime.min of non-temporal
+            # files) and from_json_dict could not parse them again.
             "times": [
-                self.times[0].strftime("%Y-%m-%dT%H:%M:%S.%f"),
-                self.times[1].strftime("%Y-%m-%dT%H:%M:%S.%f")
+                self.times[0].isoformat(timespec="microseconds"),
+                self.times[1].isoformat(timespec="microseconds")
             ],
             "attr": self.attr,
         }
